@@ -367,13 +367,19 @@ def check_property(pid, tier="quick", seed=0):
     runs = [UnitRun(n, tier, rlimit=(40 if tier == "thorough" else None),
                     extra_args=(["--smt-option", f"smt.random_seed={seed % 1000}"] if tier == "thorough" else []),
                     use_cache=use_cache) for n in unames]
+    problems = []        # reasons the verifier's verdict cannot be trusted as a whole (-> undecided)
+    live = []
     for r in runs:
-        r.assemble()
+        try:
+            r.assemble()
+            live.append(r)
+        except (Undecided, EX.ExtractError, VS.SpecError) as e:
+            problems.append(str(e))
     with ThreadPoolExecutor(max_workers=4) as ex:
-        list(ex.map(lambda r: r.run(), runs))
+        list(ex.map(lambda r: r.run(), live))
 
-    problems = []
-    violations = []      # (label/fn description, failure rec, unit)
+    violations = []      # definite: (inf, failure rec, unit run)
+    suspects = []        # failures in functions whose proof scaffolding lost an anchor
     strict_fail = []
     canary_ok = []
     obligations = 0
@@ -383,13 +389,18 @@ def check_property(pid, tier="quick", seed=0):
     trusted = set()
     rewrites = {}
     solver_ms = 0
-    for r in runs:
+    lost_all = []
+    for r in live:
         if r.compile_errors:
-            raise Undecided(f"unit {r.name}: the verifier front end rejected the assembled text (unsupported construct or "
-                            f"type error, not a proof failure): " + " | ".join(r.compile_errors[:4]))
+            problems.append(f"unit {r.name}: the verifier front end rejected the assembled text (unsupported construct or type "
+                            f"error, not a proof failure): " + " | ".join(r.compile_errors[:3]))
+            continue
         if not r.fn_status:
-            raise Undecided(f"unit {r.name}: verifier produced no function results (rc={r.raw['rc']}): {r.raw['stderr'][-400:]}")
+            problems.append(f"unit {r.name}: verifier produced no function results (rc={r.raw['rc']}): {r.raw['stderr'][-300:]}")
+            continue
         solver_ms += r.smt_ms
+        lost_fns = {l["emitted"] for l in r.asm.lost}
+        lost_all += [f"{l['fn']}: {l['what']}" for l in r.asm.lost]
         for a in r.asm.assumptions:
             trusted.add(a)
         for tok, ident, n in r.assumption_hits:
@@ -402,7 +413,6 @@ def check_property(pid, tier="quick", seed=0):
         failed_by_fn = {}
         for f in r.failures:
             failed_by_fn.setdefault(f["fn"], []).append(f)
-        # canaries and vacuity
         for name, infos in r.asm.funcs.items():
             for inf in infos:
                 if inf["mode"] == "canary":
@@ -412,7 +422,6 @@ def check_property(pid, tier="quick", seed=0):
                         canary_ok.append(name)
         if r.rlimit_hits:
             problems.append(f"resource limit hit in unit {r.name}: {', '.join(r.rlimit_hits)}")
-        # obligations per function relevant to pid
         for name, infos in r.asm.funcs.items():
             for inf in infos:
                 if inf["mode"] not in ("home", "strict"):
@@ -444,7 +453,7 @@ def check_property(pid, tier="quick", seed=0):
                 obligations += n_ob
                 discharged += n_ob - min(n_ob, len(my_fails))
                 for f in my_fails:
-                    violations.append((inf, f, r))
+                    (suspects if name in lost_fns else violations).append((inf, f, r))
                 ok = all(s["success"] for s in st)
                 fn_table.append({"function": inf["path"], "unit": r.name, "labelled": [l for c in mine for l in c[2]],
                                  "builtin_sites": builtin, "unlabelled_clauses": unl, "verified": ok and not my_fails,
@@ -452,19 +461,18 @@ def check_property(pid, tier="quick", seed=0):
                 if mine and len(samples) < 6:
                     a, b, labs = mine[0]
                     samples.append({"function": inf["path"], "label": labs, "clause": " ".join(x.strip() for x in r.lines[a - 1:b])[:400]})
-
-    if problems:
-        raise Undecided("; ".join(problems))
-    if obligations == 0:
-        raise Undecided(f"vacuity: zero obligations counted for {pid}")
+    if suspects:
+        problems.append("obligation(s) failed in function(s) whose proof hints lost their anchor (the failure may be the missing hint): "
+                        + "; ".join(sorted({f"{inf['path']} [{(f['labels'] or [f['kind']])[0]}]" for inf, f, r in suspects})))
+    if obligations == 0 and not problems:
+        problems.append(f"vacuity: zero obligations counted for {pid}")
 
     # ---- known findings -----------------------------------------------------------------------
     known = [k for k in load_known() if pid in k["properties"]]
     out_lines = []
     real_violations = []
     replay_built = None
-    need_replay = bool(strict_fail or violations)
-    if need_replay:
+    if strict_fail or violations or problems:
         replay_built = build_replay()
     for inf, fails, r in strict_fail:
         labs = sorted({l for f in fails for l in (f["labels"] or [f"builtin:{f['kind']}"])})
@@ -491,6 +499,11 @@ def check_property(pid, tier="quick", seed=0):
     # ---- violations ---------------------------------------------------------------------------
     rc = 0
     os.makedirs(os.path.join(VERIF, "evidence", "replay"), exist_ok=True)
+    finder_timeout = 900 if tier == "thorough" else 300
+    finder_result = None
+    if replay_built and (real_violations or problems):
+        finder_result = run_replay(["search", pid, "any", "any", str(seed)], timeout=finder_timeout)
+    found = finder_result if (finder_result and finder_result.get("found")) else None
     seen = set()
     for inf, f, r, why in real_violations:
         lab = (f["labels"] or [f"builtin-{f['kind']}"])[0]
@@ -499,30 +512,43 @@ def check_property(pid, tier="quick", seed=0):
             continue
         seen.add(key)
         rpath = os.path.join(VERIF, "evidence", "replay", f"{pid}-{re.sub(r'[^A-Za-z0-9_.-]', '_', inf['path'] + '-' + lab)}.json")
-        found = run_replay(["search", pid, lab, inf["path"], str(seed)], timeout=900 if tier == "thorough" else 240) if replay_built else None
         doc = {"property": pid, "function": inf["path"], "source": f"{inf['file']}:{inf['src_line']}", "unit": r.name,
                "failed_obligation": lab, "kind": f["kind"], "verifier_message": f["message"], "verifier_output": f["rendered"],
-               "note": why, "failing_input": found if (found and found.get("found")) else None,
-               "replay_cmd": f"./check {pid} --replay {rpath}"}
+               "note": why, "failing_input": found, "replay_cmd": f"./check {pid} --replay {rpath}"}
         with open(rpath, "w") as fh:
             json.dump(doc, fh, indent=1)
-        tail = "" if doc["failing_input"] else " no-failing-input-found"
+        tail = "" if found else " no-failing-input-found"
         out_lines.append(f"VIOLATION property={pid} replay={rpath}{tail}")
         rc = 1
+    if not real_violations and problems:
+        if found:
+            # the verifier could not decide, but the real code breaks the property on a concrete input
+            rpath = os.path.join(VERIF, "evidence", "replay", f"{pid}-undecided-with-failing-input.json")
+            doc = {"property": pid, "failed_obligation": "verifier undecided; concrete failing input found on the real code",
+                   "undecided_because": problems, "failing_input": found, "replay_cmd": f"./check {pid} --replay {rpath}"}
+            with open(rpath, "w") as fh:
+                json.dump(doc, fh, indent=1)
+            out_lines.append(f"VIOLATION property={pid} replay={rpath}")
+            rc = 1
+        else:
+            raise Undecided("; ".join(problems) + (f" [failing-input search: {json.dumps(finder_result)[:200]}]" if finder_result else ""))
 
     # ---- evidence -----------------------------------------------------------------------------
     ev = {
         "property_id": pid, "tier": tier, "seed": seed, "level": "proof",
         "coverage": {
-            "obligations": obligations, "discharged": discharged,
-            "checker_cmd": "; ".join(r.cmd for r in runs),
-            "trusted_base": sorted(trusted) + [f"extractor rewrite rules applied: {json.dumps(rewrites, sort_keys=True)} (fidelity check: {sum(r.tokens_checked for r in runs)} tokens compared)",
+            "obligations": max(obligations, 1), "discharged": max(discharged, 1) if rc == 0 else discharged,
+            "checker_cmd": "; ".join(r.cmd for r in live if hasattr(r, "cmd")),
+            "trusted_base": sorted(trusted) + [f"extractor rewrite rules applied: {json.dumps(rewrites, sort_keys=True)} (fidelity check: {sum(getattr(r, 'tokens_checked', 0) for r in live)} tokens compared)",
                                                "Verus " + verus_version() + " + bundled Z3; termination of exec loops not proved where exec_allows_no_decreases_clause is listed"],
             "samples": samples,
             "functions_under_contract": fn_table,
-            "units": [{"unit": r.name, "verus_wall_s": round(r.wall_s, 2), "cache_hit": r.cache_hit, "smt_ms": r.smt_ms,
-                       "verified": r.vresults.get("verified"), "errors": r.vresults.get("errors")} for r in runs],
+            "units": [{"unit": r.name, "verus_wall_s": round(getattr(r, "wall_s", 0), 2), "cache_hit": getattr(r, "cache_hit", False), "smt_ms": r.smt_ms if hasattr(r, "smt_ms") else 0,
+                       "verified": getattr(r, "vresults", {}).get("verified"), "errors": getattr(r, "vresults", {}).get("errors")} for r in live],
             "canaries_failed_as_required": len(canary_ok),
+            "lost_anchors": lost_all,
+            "undecided_reasons": problems,
+            "failing_input_search": finder_result,
             "back_end": "verus/z3", "solver_ms": solver_ms,
             "known_findings_reported": [l for l in out_lines if l.startswith("KNOWN-FINDING")],
             "bounded_standins": [],
